@@ -191,6 +191,23 @@ func e2e(runs, trace string, tier string, seed int64) {
 		}
 		pool = append(pool, b.String())
 	}
+	// Unicode look-alikes of separators and dots (full-width, small forms, leaders): whatever normalisation or folding the
+	// code applies to a name must happen before it is judged safe, never after
+	compatSyms := []string{"\uff0e", "\uff0f", "\uff3c", "\u2024", "\u2025", "\u2215", "\u2044", "\ufe52", "\uff1a", "\uff0e\uff0e", "\u2025\uff0f", "a", "..", "/"}
+	compat := []string{"\uff0e\uff0e\uff0f\uff0e\uff0e\uff0fescaped", "\u2025\uff0f\u2025\uff0fescaped", "\uff0e\uff0e\uff3cescaped", "sub\uff0fescaped",
+		"\uff0fabs\uff0fescaped", "\uff23\uff1a\uff3cx", "\u2024\u2024\u2215\u2024\u2024\u2215escaped", "\ufe52\ufe52\u2044escaped"}
+	nCompat := 24
+	if tier == "thorough" {
+		nCompat = 400
+	}
+	for i := 0; i < nCompat; i++ {
+		k := 2 + rng.Intn(4)
+		var b strings.Builder
+		for j := 0; j < k; j++ {
+			b.WriteString(compatSyms[rng.Intn(len(compatSyms))])
+		}
+		compat = append(compat, b.String()+"escaped")
+	}
 	tid, viol, nruns, collisions := 0, 0, 0, 0
 	run := func(kind string, nm []string, doc []byte, op func(in, out string) error, expectCollision bool) {
 		nAttach := strings.Count(string(doc), "/Type /Filespec")
@@ -269,6 +286,22 @@ func e2e(runs, trace string, tier string, seed int64) {
 			run("bookmark-split", []string{n, "second"}, bookmarkDoc([]string{n, "second"}), func(in, out string) error { return api.SplitFile(in, out, 0, nil) }, false)
 			run("image", []string{n}, imageDoc(n), func(in, out string) error { return api.ExtractImagesFile(in, out, nil, nil) }, false)
 		}
+	}
+	for _, n := range compat {
+		run("attach", []string{n}, attachDoc([]string{n}), func(in, out string) error { return api.ExtractAttachmentsFile(in, out, nil, nil) }, false)
+		run("bookmark-split", []string{n, "second"}, bookmarkDoc([]string{n, "second"}), func(in, out string) error { return api.SplitFile(in, out, 0, nil) }, false)
+		run("image", []string{n}, imageDoc(n), func(in, out string) error { return api.ExtractImagesFile(in, out, nil, nil) }, false)
+	}
+	// the same name tree key twice (different streams, same file name): two attachments, one output name
+	for _, dup := range [][]string{{"note.txt", "note.txt"}, {"a", "note.txt", "note.txt", "z"}} {
+		fn := make([]string, len(dup))
+		for i := range dup {
+			fn[i] = "note.txt"
+			if dup[i] != "note.txt" {
+				fn[i] = dup[i] + ".txt"
+			}
+		}
+		run("attach", []string{"note.txt", "note.txt"}, attachDocKeys(dup, fn), func(in, out string) error { return api.ExtractAttachmentsFile(in, out, nil, nil) }, true)
 	}
 	// hostile name-tree KEYS combined with file names the sanitiser rejects (the fallback name must be safe too)
 	rejected := []string{".", "..", "../..", "", "a\x00b", "/", "\\", " . "}
